@@ -3,6 +3,7 @@
 package props
 
 import (
+	"bytes"
 	"context"
 	"encoding/base64"
 	"encoding/json"
@@ -331,8 +332,13 @@ func TestC20(t *testing.T) {
 		var cl []string
 		// build the store
 		api.zones, api.log, api.fail = nil, nil, map[string]string{}
-		lists := [][]byte{hello.GenBytes(t, "list0", 30), hello.GenBytes(t, "list1", 45)}
+		lists := [][]byte{hello.GenBytes(t, "list0", 30), hello.GenBytes(t, "list1", 45), hello.GenBytes(t, "list2", 30)}
+		if bytes.Equal(lists[0], lists[2]) {
+			lists[2][0] ^= 1
+		}
 		c20Lists = lists
+		// the caller serialises each list into one buffer it keeps for the whole run
+		pubBuf := make([]byte, 64)
 		nz := rapid.IntRange(1, 3).Draw(t, "nzones")
 		rid := 0
 		// zone 1 may be a delegated child of zone 0, and the parent may still hold a record
@@ -410,7 +416,7 @@ func TestC20(t *testing.T) {
 				api.fail = map[string]string{}
 				ops = append(ops, "fail_off:all")
 			case k <= 2: // publish
-				list := lists[rapid.IntRange(0, 1).Draw(t, "whichlist")]
+				list := pubBuf[:copy(pubBuf, lists[rapid.IntRange(0, 2).Draw(t, "whichlist")])]
 				b64 := base64.StdEncoding.EncodeToString(list)
 				nt := rapid.IntRange(0, 6).Draw(t, "ntargets")
 				if forceZone >= 0 && nt == 0 {
